@@ -106,8 +106,11 @@ impl<'a> BerDecoder<'a> for SnmpReal {
                     // ISO 6093 NR1: i.e. 456
                     1 => {
                         let s = from_utf8(&i[1..]).map_err(|_| SnmpError::InvalidData)?;
-                        let v = s.parse::<i32>().map_err(|_| SnmpError::InvalidData)?;
-                        v.into()
+                        // Signed integer of any length, not only the i32 range
+                        if !s.bytes().all(|c| c.is_ascii_digit() || c == b'+' || c == b'-') {
+                            return Err(SnmpError::InvalidData);
+                        }
+                        s.parse::<f64>().map_err(|_| SnmpError::InvalidData)?
                     }
                     // ISO 6093 NR2: i.e. 456.7
                     2 => {
